@@ -801,7 +801,29 @@ func EnumConvert(p *core.Prog, r *core.Report) {
 	}
 	n, ok := 0, true
 	why := ""
+	viaPredicate := false
 	core.EachInstr(f, func(i ssa.Instruction) {
+		if pc, isCall := i.(*ssa.Call); isCall {
+			if g := core.StaticCallee(pc); g != nil && isValueEqualityPredicate(p, g) {
+				// valuesEqual(data, member): the instance itself against each member of the receiver's Enum
+				n++
+				a, b := through(pc.Call.Args[0]), through(pc.Call.Args[1])
+				isMember := false
+				if ld, is := b.(*ssa.UnOp); is {
+					if ia, is := ld.X.(*ssa.IndexAddr); is {
+						if pth, has := core.StablePath(ia.X); has && strings.HasSuffix(pth, ".Enum") {
+							isMember = true
+						}
+					}
+				}
+				if a != ssa.Value(data) || !isMember {
+					ok, why = false, "the equality predicate is not applied to the instance and the enum member"
+				} else {
+					viaPredicate = true
+				}
+				return
+			}
+		}
 		c, is := core.IsCallTo(i, "reflect.DeepEqual")
 		if !is {
 			return
@@ -871,6 +893,9 @@ func EnumConvert(p *core.Prog, r *core.Report) {
 			nullOK = true
 		}
 	}
+	if viaPredicate {
+		nullOK = true // the predicate starts with DeepEqual(data, member): nil equals nil
+	}
 	if nullOK {
 		r.OK(rule, "basicCommonValidator:null-member", p.Pos(f.Pos()), "a null member accepts exactly the null instance")
 	} else {
@@ -891,7 +916,7 @@ func EnumConvert(p *core.Prog, r *core.Report) {
 		r.Bad(rule, "basicCommonValidator:lossy-conversion", lossy, "the instance is converted to the member's Go type (guarded by ConvertibleTo only) before it is compared: the conversion truncates, wraps and rounds, and turns integers into strings — int64(9007199254740993) is accepted for the enum [9007199254740992], 2.5 for [1, 2, 3] given as Go ints, int64(257) for [int8(1)], 97 for [\"a\"]")
 	}
 	if n > 0 && ok {
-		r.OK(rule, "basicCommonValidator", p.Pos(f.Pos()), "DeepEqual(ValueOf(data).Convert(TypeOf(member)).Interface(), member)")
+		r.OK(rule, "basicCommonValidator", p.Pos(f.Pos()), "membership: the instance compared with each member of the receiver's enum (value-equality predicate, or DeepEqual of the instance converted to the member's type)")
 	} else {
 		r.Bad(rule, "basicCommonValidator", p.Pos(f.Pos()), "enum membership is not decided by comparing the instance converted to the member's type with that member: "+why)
 	}
